@@ -17,8 +17,11 @@ if [ $CONFIRM = 1 ]; then
 fi
 git apply "$SEED/patch.diff" || { echo "patch does not apply"; exit 2; }
 cd /verif
+EVBAK=$(mktemp -d); cp -a /verif/evidence/. $EVBAK/
 for p in "$PID" "${EXTRA[@]}"; do
   out=$(./vf check "$p" --tier quick 2>&1); rc=$?
   echo "== $p exit=$rc"; echo "$out" | grep -E "VIOLATION|violated|INCONCLUSIVE|MACHINERY|KNOWN" | cut -c1-400 | head -8
 done
 git -C /repo checkout -- .
+# evidence files must describe runs on the unchanged tree: restore them
+cp -a $EVBAK/. /verif/evidence/; rm -rf $EVBAK
